@@ -389,7 +389,7 @@ func (w *World) RandomOp(o HistOpts) {
 	}
 	if o.GovOps {
 		ops = append(ops, op{2, func() {
-			switch w.pick(7) {
+			switch w.pick(8) {
 			case 0:
 				w.MintInit(w.Gov)
 			case 1:
@@ -412,6 +412,15 @@ func (w *World) RandomOp(o HistOpts) {
 				}
 			case 4:
 				w.UpdateSnapshotLimit(w.Gov, uint64(w.pick(5)))
+			case 5:
+				// the staking module's validator cap: validators leave (and re-enter) the bonded set by power ranking,
+				// without being jailed; unbonding time as short as a second
+				if o.ValStatus && govBoundary {
+					ub := []time.Duration{time.Second, time.Hour, 21 * 24 * time.Hour, 21 * 24 * time.Hour}[w.pick(4)]
+					w.UpdateStakingParams(w.Gov, uint32(1+w.pick(4)), ub)
+				} else {
+					w.UpdateSnapshotLimit(w.Gov, uint64(1+w.pick(5)))
+				}
 			default:
 				spec := registrytypes.GenesisDataSpec()
 				spec.ReportBlockWindow = uint64(1 + w.pick(5))
